@@ -81,8 +81,8 @@ Proof.
 Qed.
 
 (* ---------- concrete instances: the correspondence handler ------------------------------- *)
-Definition cfg_seed : cfg := mk_cfg Seed 8 true true [].
-Definition cfg_leech : cfg := mk_cfg Leech 8 false true [].
+Definition cfg_seed : cfg := mk_cfg Seed 8 true true [] [].
+Definition cfg_leech : cfg := mk_cfg Leech 8 false true [] [].
 Definition h0 (c : cfg) : hst := hinit c (repeat false 8) false false false.
 
 Lemma hreal_never_fatal c : handler_never_fatal hst (hreal c).
